@@ -806,8 +806,12 @@ class MetadataProviderServer(Server):
         # protocol method_name name, and retrieves such method_name.
         on_method_name = "_on_" + method_name.lower()
         try:
+            # Only the exact names of the protocol methods are dispatched: a
+            # request such as "mpi" must not reach _on_mpi, which would
+            # initialize the Remote Adapter a second time.
+            meta_protocol.Method[method_name]
             on_method = getattr(self, on_method_name)
-        except AttributeError:
+        except (KeyError, AttributeError):
             METADATA_LOGGER.warning("Discarding unknown request: %s",
                                     method_name)
             return
